@@ -67,6 +67,11 @@ CLAIMED = {
    "DESIGN.md §6 C16",
    "Lean kernel (decide +kernel: GMP arithmetic); translator (regex + re-implemented ucd-trie lookup) validated exhaustively against TrieSet::contains_char; name lists extracted textually.",
    "regenerated tables + Lean 4 kernel evaluation over the whole finite domain + exhaustive code-point correspondence"),
+ "C14": ("translation_validation",
+   "The bootstrap is validated as a translation: (1) the current generator applied to the current grammar.pest must reproduce meta/src/grammar.rs byte for byte (equal programs need no behavioural argument); (2) the grammar is REGENERATED into a Lean value on every run and the kernel checks that the Lean optimizer model reproduces the real optimizer on it and that the lister does not touch it (so C05's pipeline theorem applies); (3) on snippets of real grammars and their mutations, for the top rule and 19 sub-rules, the checked-in parser, the VM over parse_and_optimize(grammar.pest), a freshly generated parser and the reference denotation of the regenerated grammar agree on acceptance, token tree and (among the implementations) error position and rule sets.",
+   "DESIGN.md §6 C14",
+   "textual equality of generated code; Lean kernel for the optimizer equality; differential on mutated real grammars.",
+   "regeneration equality + kernel-checked optimizer equality on the regenerated grammar + four-way differential"),
 }
 REASON_TODO = "not claimed yet: machinery for this property is not built in the committed tree (planned in DESIGN.md §6); no check is registered rather than an unsound one"
 
